@@ -410,6 +410,7 @@ BUILTIN_SHADOWS = {
     'mido.messages.strings': {'int': tokens.sym_int, 'float': tokens.sym_float},
     'mido.sockets': {'int': tokens.sym_int, 'ord': sym_ord},
     'mido.syx': {'bytearray': SymByteArray},
+    'mido.midifiles.units': {'int': tokens.sym_int},
 }
 
 
